@@ -204,6 +204,13 @@ func (c *Ctx) SSAPkg(rel string) *ssa.Package {
 func (c *Ctx) Func(rel, name string) *ssa.Function {
 	f := c.FuncMaybe(rel, name)
 	if f == nil {
+		buildRenames(c)
+		f = renameOldToNew[rel+"."+name]
+		if rel == "" {
+			f = renameOldToNew["zlint."+name]
+		}
+	}
+	if f == nil {
 		fault("unresolved anchor: function %s.%s", rel, name)
 	}
 	return f
@@ -223,7 +230,16 @@ func (c *Ctx) FuncMaybe(rel, name string) *ssa.Function {
 	}
 	// the function may have become a method (or moved onto another receiver):
 	// accept the unique method of that name declared in the package
-	return uniqueMethodNamed(c, p, name)
+	if f := uniqueMethodNamed(c, p, name); f != nil {
+		return f
+	}
+	// or it was renamed (newfuncs.go)
+	buildRenames(c)
+	key := rel + "." + name
+	if rel == "" {
+		key = "zlint." + name
+	}
+	return renameOldToNew[key]
 }
 
 // uniqueMethodNamed: the only method called name declared on any named type of p.
@@ -257,6 +273,18 @@ func uniqueMethodNamed(c *Ctx, p *packages.Package, name string) *ssa.Function {
 // type declared in a module package.
 func (c *Ctx) Method(rel, recv, name string) *ssa.Function {
 	f := c.MethodMaybe(rel, recv, name)
+	if f == nil {
+		buildRenames(c)
+		pk := rel
+		if pk == "" {
+			pk = "zlint"
+		}
+		for _, form := range []string{"(*" + pk + "." + recv + ")." + name, "(" + pk + "." + recv + ")." + name} {
+			if g := renameOldToNew[form]; g != nil {
+				f = g
+			}
+		}
+	}
 	if f == nil {
 		// the method may have become a package-level function of the same name
 		if p := c.PkgMaybe(rel); p != nil {
@@ -386,6 +414,11 @@ func fname(f *ssa.Function) string {
 	s := f.String()
 	s = strings.ReplaceAll(s, modPath+"/", "")
 	s = strings.ReplaceAll(s, modPath, "zlint")
+	if old := aliasedBase(f); old != "" {
+		if i := strings.LastIndex(s, "."); i >= 0 {
+			s = s[:i+1] + old
+		}
+	}
 	return s
 }
 
